@@ -346,6 +346,35 @@ def build_T7j(tree):
     return text, span_sha(body)
 
 
+def build_T7k(tree):
+    """`utils.compute_plane_position_tiled_full`: the z origin handed to the pixel-to-reference map -- `float(slice_index - 1) *
+    spacing_between_slices` when both are given, 0.0 when neither, TypeError when exactly one.  The one-of test is written with
+    `sum(<tuple of bools>) not in (0, 2)` in the source: that statement is pinned textually and translated as its meaning (exactly one
+    given); the z assignment and the tuple handed on as `image_position` are translated as they stand."""
+    fn = find_func(tree, 'compute_plane_position_tiled_full')
+    body = strip_doc(fn.body)
+    txt = ''.join(_norm(st) for st in body)
+    for needle in ("provided_3d_params=(slice_indexisnotNone,spacing_between_slicesisnotNone)",
+                   "ifsum(provided_3d_params)notin(0,2):raiseTypeError(",
+                   "x,y,z=map_pixel_into_coordinate_system(index=(column_offset_frame,row_offset_frame),"
+                   "image_position=(x_offset,y_offset,z_offset),image_orientation=image_orientation,pixel_spacing=pixel_spacing)",
+                   "image_position=(x,y,z)"):
+        if needle not in txt:
+            raise Unsupported('compute_plane_position_tiled_full changed (missing ' + needle[:70] + ')')
+    zif = None
+    for st in body:
+        if isinstance(st, ast.If) and any(isinstance(x, ast.Assign) and _norm(x.targets[0]) == 'z_offset' for x in st.body):
+            zif = st
+    if zif is None or not zif.orelse:
+        raise Unsupported('compute_plane_position_tiled_full: `if ...: z_offset = ... else: z_offset = ...` not found')
+    one_of = ast.parse("if (slice_index is not None) != (spacing_between_slices is not None):\n    raise TypeError('one of')").body[0]
+    block = _fresh([one_of, zif, ast.parse('return z_offset').body[0]])
+    text = translate_block(block, 'planePositionZ', [('slice_index', 'optint'), ('spacing_between_slices', 'optrat')], {},
+                           doc='`utils.compute_plane_position_tiled_full`: z of the image position handed to the pixel-to-reference map '
+                               '(TypeError when exactly one of slice_index / spacing_between_slices is given)')
+    return text, span_sha([zif]) + hashlib.sha256(txt.encode()).hexdigest()[:8]
+
+
 TARGETS = {
     'T7a': {'file': 'spatial.py', 'build': build_T7a},
     'T7b': {'file': 'spatial.py', 'build': build_T7b},
@@ -357,4 +386,5 @@ TARGETS = {
     'T7h': {'file': 'spatial.py', 'build': build_T7h},
     'T7i': {'file': 'spatial.py', 'build': build_T7i},
     'T7j': {'file': 'utils.py', 'build': build_T7j},
+    'T7k': {'file': 'utils.py', 'build': build_T7k},
 }
